@@ -70,4 +70,24 @@ theorem C18_derive_order_repr_independent (t1 t2 : Target) (d1 d2 : Decl) (x1 x2
   rw [e1] at e2
   exact Option.some.inj e2
 
+/-- the same for the function bodies translated from /repo/src: two derives with the same discriminant-to-name map
+(any reprs, any declaration orders, any resolved modes, any targets) -/
+theorem C18_source (D1 D2 : Derive) (t1 t2 : Target) (m1 m2 : Modes) (h1 : D1.WF) (h2 : D2.WF) (ht1 : t1.WF) (ht2 : t2.WF)
+    (hs : D1.sem = D2.sem) :
+    (∀ n, D1.repr.InRange n → D2.repr.InRange n → T.tryFromFn D1 t1 m1 n = T.tryFromFn D2 t2 m2 n) ∧
+    (∀ v ∈ D1.vals, T.next D1 t1 m1 v = T.next D2 t2 m2 v ∧ T.nextBack D1 t1 m1 v = T.nextBack D2 t2 m2 v) ∧
+    (∀ v ∈ D1.vals, m1.asStr ≠ .auto → m2.asStr ≠ .auto → T.asStr D1 t1 m1 v = T.asStr D2 t2 m2 v) ∧
+    (∀ s, m1.fromStrFn ≠ .auto → m2.fromStrFn ≠ .auto → T.fromStrFn D1 t1 m1 s = T.fromStrFn D2 t2 m2 s) := by
+  have hvals : D1.vals = D2.vals := by rw [← D1.sem_discs, ← D2.sem_discs, hs]
+  refine ⟨fun n a b => ?_, fun v hv => ?_, fun v hv a b => ?_, fun s a b => ?_⟩
+  · rw [(C01_source_tryFrom D1 t1 m1 h1 n a).1, (C01_source_tryFrom D2 t2 m2 h2 n b).1, hs]
+  · have hv2 : v ∈ D2.vals := hvals ▸ hv
+    rw [(C05_source D1 t1 m1 h1 v hv).1, (C05_source D2 t2 m2 h2 v hv2).1, (C05_source D1 t1 m1 h1 v hv).2, (C05_source D2 t2 m2 h2 v hv2).2, hs]
+    exact ⟨rfl, rfl⟩
+  · have hv2 : v ∈ D2.vals := hvals ▸ hv
+    obtain ⟨n1, s1, e1, _⟩ := C03_source D1 t1 m1 h1 ht1 a v hv
+    obtain ⟨n2, s2, e2, _⟩ := C03_source D2 t2 m2 h2 ht2 b v hv2
+    rw [hs, s2] at s1; cases s1; rw [e1, e2]
+  · rw [(C04_source D1 t1 m1 h1 s).1 a, (C04_source D2 t2 m2 h2 s).1 b, hs]
+
 end ET.Thm
